@@ -287,6 +287,26 @@ func (enc *Encoder) Encode(v interface{}) (err error) {
 	return enc.encode(v)
 }
 
+// countingWriter counts the bytes accepted by the underlying writer
+type countingWriter struct {
+	w io.Writer
+	n int64
+}
+
+func (c *countingWriter) Write(p []byte) (int, error) {
+	n, err := c.w.Write(p)
+	c.n += int64(n)
+	return n, err
+}
+
+func (enc *Encoder) writeUint32(a uint32) error {
+	var buff [32 / 8]byte
+	binary.BigEndian.PutUint32(buff[:], a)
+	written, err := enc.w.Write(buff[:])
+	enc.n += int64(written)
+	return err
+}
+
 // BytesWritten return total bytes written on writer
 func (enc *Encoder) BytesWritten() int64 {
 	return enc.n
@@ -348,11 +368,9 @@ func (enc *Encoder) encode(v interface{}) (err error) {
 		return
 	case []fr.Element:
 		// write slice length
-		err = binary.Write(enc.w, binary.BigEndian, uint32(len(t)))
-		if err != nil {
+		if err = enc.writeUint32(uint32(len(t))); err != nil {
 			return
 		}
-		enc.n += 4
 		var buf [fr.Bytes]byte
 		for i := 0; i < len(t); i++ {
 			buf = t[i].Bytes()
@@ -365,11 +383,9 @@ func (enc *Encoder) encode(v interface{}) (err error) {
 		return nil
 	case []fp.Element:
 		// write slice length
-		err = binary.Write(enc.w, binary.BigEndian, uint32(len(t)))
-		if err != nil {
+		if err = enc.writeUint32(uint32(len(t))); err != nil {
 			return
 		}
-		enc.n += 4
 		var buf [fp.Bytes]byte
 		for i := 0; i < len(t); i++ {
 			buf = t[i].Bytes()
@@ -383,11 +399,9 @@ func (enc *Encoder) encode(v interface{}) (err error) {
 
 	case []G1Affine:
 		// write slice length
-		err = binary.Write(enc.w, binary.BigEndian, uint32(len(t)))
-		if err != nil {
+		if err = enc.writeUint32(uint32(len(t))); err != nil {
 			return
 		}
-		enc.n += 4
 
 		var buf [SizeOfG1AffineCompressed]byte
 
@@ -405,8 +419,10 @@ func (enc *Encoder) encode(v interface{}) (err error) {
 		if n == -1 {
 			return errors.New("<no value> encoder: unsupported type")
 		}
-		err = binary.Write(enc.w, binary.BigEndian, t)
-		enc.n += int64(n)
+		// count what the writer accepted, also when it fails
+		cw := countingWriter{w: enc.w}
+		err = binary.Write(&cw, binary.BigEndian, t)
+		enc.n += cw.n
 		return
 	}
 }
@@ -438,11 +454,9 @@ func (enc *Encoder) encodeRaw(v interface{}) (err error) {
 		return
 	case []fr.Element:
 		// write slice length
-		err = binary.Write(enc.w, binary.BigEndian, uint32(len(t)))
-		if err != nil {
+		if err = enc.writeUint32(uint32(len(t))); err != nil {
 			return
 		}
-		enc.n += 4
 		var buf [fr.Bytes]byte
 		for i := 0; i < len(t); i++ {
 			buf = t[i].Bytes()
@@ -455,11 +469,9 @@ func (enc *Encoder) encodeRaw(v interface{}) (err error) {
 		return nil
 	case []fp.Element:
 		// write slice length
-		err = binary.Write(enc.w, binary.BigEndian, uint32(len(t)))
-		if err != nil {
+		if err = enc.writeUint32(uint32(len(t))); err != nil {
 			return
 		}
-		enc.n += 4
 		var buf [fp.Bytes]byte
 		for i := 0; i < len(t); i++ {
 			buf = t[i].Bytes()
@@ -473,11 +485,9 @@ func (enc *Encoder) encodeRaw(v interface{}) (err error) {
 
 	case []G1Affine:
 		// write slice length
-		err = binary.Write(enc.w, binary.BigEndian, uint32(len(t)))
-		if err != nil {
+		if err = enc.writeUint32(uint32(len(t))); err != nil {
 			return
 		}
-		enc.n += 4
 
 		var buf [SizeOfG1AffineUncompressed]byte
 
@@ -495,8 +505,10 @@ func (enc *Encoder) encodeRaw(v interface{}) (err error) {
 		if n == -1 {
 			return errors.New("<no value> encoder: unsupported type")
 		}
-		err = binary.Write(enc.w, binary.BigEndian, t)
-		enc.n += int64(n)
+		// count what the writer accepted, also when it fails
+		cw := countingWriter{w: enc.w}
+		err = binary.Write(&cw, binary.BigEndian, t)
+		enc.n += cw.n
 		return
 	}
 }
